@@ -482,6 +482,12 @@ export class SchemaPrintingContext {
     delete this.inProgressDefinitions[name];
   }
 
+  // printing the body of a definition failed (e.g. it contains a Date): the name is not defined and must
+  // not stay "in progress", or later references would emit a $ref to a definition that is never stored
+  abandonDefinition(name: string): void {
+    delete this.inProgressDefinitions[name];
+  }
+
   exportDefinitions():
     | Record<string, JSONSchema7Definition>
     | Record<string, Record<string, JSONSchema7Definition>> {
@@ -1909,7 +1915,13 @@ export class AnyOfDiscriminatedRuntype extends BaseRuntype {
       return;
     }
     printingContext.markDefinitionInProgress(name);
-    const body = target.schema(ctx);
+    let body;
+    try {
+      body = target.schema(ctx);
+    } catch (e) {
+      printingContext.abandonDefinition(name);
+      throw e;
+    }
     printingContext.storeDefinition(name, body);
   }
 
@@ -2438,7 +2450,13 @@ export abstract class BaseRefRuntype extends BaseRuntype {
       if (!printingContext.hasDefinition(name) && !printingContext.isDefinitionInProgress(name)) {
         printingContext.markDefinitionInProgress(name);
         const schemaTarget = printingContext.getNamedTypeSchemaOverride(name) ?? to;
-        const body = schemaTarget.schema(ctx);
+        let body;
+        try {
+          body = schemaTarget.schema(ctx);
+        } catch (e) {
+          printingContext.abandonDefinition(name);
+          throw e;
+        }
         printingContext.storeDefinition(name, body);
       }
       return annotateSchema(this.metadata, { $ref: printingContext.getRef(name) });
